@@ -139,9 +139,32 @@ COLLIDING_STRUCTS = [
 ]
 
 
+PRIVATE_EXTERNS = [
+    "extern fn scale(x: i32) -> i32\n{\n\treturn: x * 2\n}\n\npub fn pe1(x: i32) -> i32\n{\n\treturn: scale(x)\n}\n",
+    "extern fn scale(x: i32) -> i32\n{\n\treturn: x * 10\n}\n\npub fn pe2(x: i32) -> i32\n{\n\treturn: scale(x) + 1\n}\n",
+    "import \"e1.pn\";\nimport \"e2.pn\";\n\nfn main() -> i32\n{\n\treturn: pe1(3) + pe2(3)\n}\n",
+]
+
+
 def run_history(case):
     _, seed, i = case
     rng = common.rng_for(seed, PROP, "hist", i)
+    if i % 25 == 23:
+        # two modules with a private `extern fn` of the same name each (private items do not leave their module, whatever
+        # their calling convention), used by a third: every file order
+        names = ["e1.pn", "e2.pn", "m.pn"]
+        order = list(itertools.permutations(range(3)))[(i // 25) % 6]
+        fs = [(names[j], PRIVATE_EXTERNS[j]) for j in order]
+        st, res, ir = outcome(fs)
+        replay = {"files": fs}
+        cov = {"history_private_externs": 1}
+        if st != "ok":
+            return {"verdict": VIOLATED, "sig": "two modules with a private extern function of the same name: %s" % (res if st == "crash" else list(res)),
+                    "detail": str(res), "replay": replay, "cov": cov}
+        if res[1] != 37:
+            return {"verdict": VIOLATED, "sig": "two modules with a private extern function of the same name: wrong result",
+                    "detail": {"expected_status": 37, "observed": res[1], "lli": res[2]}, "replay": replay, "cov": cov}
+        return {"verdict": HELD, "cov": cov, "nt": "hist:private_externs:%s" % "".join(map(str, order))}
     if i % 25 == 24:
         fs = [("s1.pn", COLLIDING_STRUCTS[0]), ("s2.pn", COLLIDING_STRUCTS[1])]
         if rng.random() < 0.5:
